@@ -32,7 +32,7 @@ Avail(s) ==
 
 Complete(s) == s.phase \in {"configured"} /\ Avail(s) = Src(s) /\ (IsRS(s) => s.done)
 
-WantsBuf(s, i) == s.cbMode = "buf" \/ (s.cbMode = "mix" /\ i % 2 = 0)
+WantsBuf(s, i) == s.cbMode \in {"buf", "slab"} \/ (s.cbMode = "mix" /\ i % 2 = 0)      \* "slab": buffers handed out back to back
 
 (* ---- submission ---------------------------------------------------------- *)
 
